@@ -90,10 +90,11 @@ def parseTVars? (s : List Char) : Option (List TVar) :=
 
 /-- the EMS form `<unit> since YYYY-MM-DD HH:MM:SS ±HH:MM` for a given unit -/
 def emsForm (p : Str) (out : Str) : Bool :=
-  match out.drop p.length with
-  | [' ', 's', 'i', 'n', 'c', 'e', ' ', y1, y2, y3, y4, '-', m1, m2, '-', d1, d2, ' ',
+  match (out.drop p.length).drop 7 with
+  | [y1, y2, y3, y4, '-', m1, m2, '-', d1, d2, ' ',
      h1, h2, ':', n1, n2, ':', s1, s2, ' ', sg, o1, o2, ':', o3, o4] =>
-    out.take p.length == p && [y1, y2, y3, y4, m1, m2, d1, d2, h1, h2, n1, n2, s1, s2, o1, o2, o3, o4].all isDig
+    out.take p.length == p && (out.drop p.length).take 7 == [' ', 's', 'i', 'n', 'c', 'e', ' ']
+      && [y1, y2, y3, y4, m1, m2, d1, d2, h1, h2, n1, n2, s1, s2, o1, o2, o3, o4].all isDig
       && (sg == '+' || sg == '-')
   | _ => false
 
